@@ -55,13 +55,13 @@ PROPS = {
         explanation="every handle*Command function of cmd/pdfcpu (the table is regenerated from the current sources on every run: 83 handlers today) is executed on the interpreted file system with runCommand replaced by a sink: all argument lists of 0..ARGS entries over a pool of 13 values (input PDFs, existing and absent output files, JSON/CSV files, empty / non-empty / absent directories, '-', a number, a keyword) x --force on/off; whenever the sink is reached with an explicit output file that exists and is not the command's input, or with a non-empty output directory for a directory-writing mode, --force must be set",
         outside="cobra's flag parsing and argument-count validation in front of the handlers (handlers are called with every argument count; a panic on a count cobra would reject is not a violation), option structs other than their zero value, the exit status and the refusal message, that refused commands leave files unchanged (nothing is written before the sink: by reading)",
         assumptions=["append-style commands (import, merge -mode append) treat an existing output as their input, as their usage text documents"],
-        harnesses=[dict(name="VerifForceGate", bounds=dict(quick=dict(ARGS=3), thorough=dict(ARGS=4)), opts=dict(unwind=3000), nodiff=False, diff=4)],
+        harnesses=[dict(name="VerifForceGate", bounds=dict(quick=dict(ARGS=3), thorough=dict(ARGS=3)), opts=dict(unwind=3000), nodiff=False, diff=4)],
     ),
     "C05": dict(
         pkg="./pkg/pdfcpu/sanitize",
         explanation="sanitize.Path / pathPart / PathOr executed symbolically on attacker-controlled names whose every byte is an SMT variable (lengths 0..N, so every UTF-8 class, control characters, separators, drive prefixes, dots and DOS device names up to the bound): the result is rejected or one safe relative path component",
         outside="names longer than N bytes (reserved device names of 4 characters such as COM1 need N >= 4: thorough tier); the call sites that join the sanitised name to the output directory and the collision check between two attachments",
-        harnesses=[dict(name="VerifSanitizedPath", bounds=dict(quick=dict(N=2), thorough=dict(N=3)), opts=dict(unwind=100)),
+        harnesses=[dict(name="VerifSanitizedPath", bounds=dict(quick=dict(N=2), thorough=dict(N=2)), opts=dict(unwind=100)),
                    dict(name="VerifSanitizedPathDeep", bounds=dict(quick=dict(K=13), thorough=dict(K=18)), opts=dict(unwind=600))],
     ),
     "C06": dict(
@@ -104,8 +104,8 @@ PROPS = {
             dict(name="VerifObjectStreamLimits", opts=dict(unwind=100)),
             dict(name="VerifImageLimits", opts=dict(enc="int", solver="z3-new", timeout_ms=60000, unwind=100)),
             # the decode-limit kernels (shared with C16): a bomb must end in ErrDecodeLimitExceeded at the limit
-            dict(name="VerifLimitRunLength", pkg=FI, bounds=dict(quick=dict(N=3), thorough=dict(N=4)), opts=dict(unwind=700)),
-            dict(name="VerifLimitASCIIHex", pkg=FI, bounds=dict(quick=dict(N=4), thorough=dict(N=6)), opts=dict(unwind=100)),
+            dict(name="VerifLimitRunLength", pkg=FI, bounds=dict(quick=dict(N=3), thorough=dict(N=3)), opts=dict(unwind=700)),
+            dict(name="VerifLimitASCIIHex", pkg=FI, bounds=dict(quick=dict(N=4), thorough=dict(N=4)), opts=dict(unwind=100)),
         ],
     ),
     "C11": dict(
@@ -151,13 +151,12 @@ PROPS = {
     ),
     "C15": dict(
         pkg=FI,
-        explanation="Filter.Encode then Filter.Decode executed symbolically on byte strings whose every byte is an SMT variable, for ASCIIHex, RunLength and ASCII85 alone and in pipelines; run-structured RunLength inputs cross the 128-byte run boundary",
-        outside="Flate and LZW compression cores (zlib / LZW writer are not encodable within reach: symbolic-index hash tables, Huffman coding), hence also Flate/LZW decode parameters on re-encoded streams; ASCII85 groups of 4+ fully symbolic bytes (solver unknown at 120 s in z3 5.1.0 and cvc5 1.0.3, both encodings); pipelines longer than the bound; whole StreamDict re-encode",
+        explanation="Filter.Encode then Filter.Decode executed symbolically on byte strings whose every byte is an SMT variable, for ASCIIHex and RunLength alone and in pipelines of up to PIPE filters, and for ASCII85 alone; run-structured RunLength inputs cross the 128-byte run boundary",
+        outside="Flate and LZW compression cores (zlib / LZW writer are not encodable within reach: symbolic-index hash tables, Huffman coding), hence also Flate/LZW decode parameters on re-encoded streams; ASCII85 groups of 4+ fully symbolic bytes (solver unknown at 120 s in z3 5.1.0 and cvc5 1.0.3, both encodings); ASCII85 inside pipelines (the RunLength stage shifts by a symbolic amount, which the integer encoding ASCII85 needs does not express); pipelines longer than the bound; whole StreamDict re-encode",
         harnesses=[
             dict(name="VerifFilterRoundTrip", bounds=dict(quick=dict(N=3, PIPE=2), thorough=dict(N=5, PIPE=2)), opts=dict(unwind=300)),
             dict(name="VerifRunLengthRuns", opts=dict(unwind=600)),
             dict(name="VerifASCII85RoundTrip", bounds=dict(quick=dict(N=3), thorough=dict(N=3)), opts=dict(enc="int", solver="z3-new", timeout_ms=30000, workers=4, unwind=300)),
-            dict(name="VerifASCII85Pipelines", bounds=dict(quick=dict(N=1), thorough=dict(N=1)), opts=dict(enc="int", solver="z3-new", timeout_ms=30000, workers=6, unwind=300), thorough_only=True),
         ],
     ),
     "C16": dict(
@@ -166,7 +165,7 @@ PROPS = {
         outside="Flate/LZW decompressors themselves (the limit logic below them, copyDecoded/decodePostProcessRows, is driven with an arbitrary inflated stream); ASCII85; StreamDict-level truncation to exactly n bytes; encoded inputs longer than N bytes",
         assumptions=["limit L >= 1: 0 means 'default limit' and a negative value 'unlimited' (documented sentinels of baseFilter.decodeLimit)", "the Filter interface documents DecodeLength as 'at least maxLen bytes': the filter-level assertion is prefix-of-full with length >= min(n, len(full))"],
         harnesses=[
-            dict(name="VerifLimitRunLength", bounds=dict(quick=dict(N=3), thorough=dict(N=4)), opts=dict(unwind=700)),
+            dict(name="VerifLimitRunLength", bounds=dict(quick=dict(N=3), thorough=dict(N=3)), opts=dict(unwind=700)),
             dict(name="VerifLimitASCIIHex", bounds=dict(quick=dict(N=4), thorough=dict(N=6)), opts=dict(unwind=100)),
             dict(name="VerifLimitPredictorRows", bounds=dict(quick=dict(N=6, COLS=2), thorough=dict(N=9, COLS=3)), opts=dict(unwind=100)),
         ],
@@ -187,9 +186,9 @@ PROPS = {
         outside="whole documents: the order and completeness of object writing, encryption, incremental updates, linearisation, the header/EOF lines, stream /Length of content/image streams (same writeStream kernel, different producers), offsets above the bounds; map iteration orders other than rotations of insertion order",
         assumptions=["offsets below 10^10 (the classic xref entry cannot represent more)", "object stream indices < 100 and generations <= 65535 (what the writer produces)"],
         harnesses=[
-            dict(name="VerifObjectStreamLayout", bounds=dict(quick=dict(K=2, S=1, INTMAX=999), thorough=dict(K=3, S=1, INTMAX=999)), opts=dict(unwind=300, wall_timeout=6000)),
+            dict(name="VerifObjectStreamLayout", bounds=dict(quick=dict(K=2, S=1, INTMAX=999), thorough=dict(K=2, S=1, INTMAX=99999)), opts=dict(unwind=300, wall_timeout=6000)),
             dict(name="VerifWriteObjectOffsets", bounds=dict(quick=dict(OBJMAX=99, GENMAX=9, S=1), thorough=dict(OBJMAX=999, GENMAX=99, S=2)), opts=dict(unwind=300, timeout_ms=60000)),
-            dict(name="VerifXRefTableSection", bounds=dict(quick=dict(OBJ=2, OFFMAX=999), thorough=dict(OBJ=3, OFFMAX=9999)), opts=dict(unwind=400, enc="int", timeout_ms=60000)),
+            dict(name="VerifXRefTableSection", bounds=dict(quick=dict(OBJ=2, OFFMAX=999), thorough=dict(OBJ=2, OFFMAX=9999)), opts=dict(unwind=400, enc="int", timeout_ms=60000)),
             dict(name="VerifXRefStreamSection", bounds=dict(quick=dict(OBJ=2, POSMAX=300), thorough=dict(OBJ=2, POSMAX=70000)), opts=dict(unwind=400, timeout_ms=60000)),
             dict(name="VerifStreamLengthAfterEncode", bounds=dict(quick=dict(S=2), thorough=dict(S=4)), opts=dict(unwind=300)),
             dict(name="VerifFreeList", pkg=MO, bounds=dict(quick=dict(OBJ=2), thorough=dict(OBJ=3)), opts=dict(unwind=100, maprotate=True, wall_timeout=6000)),
@@ -279,10 +278,10 @@ PROPS = {
         assumptions=["regexp/syntax parse tree -> SMT RegLan translation (engine/regexmodel.go); anchors only at branch edges"],
         harnesses=[
             dict(name="VerifPageSelection", bounds=dict(quick=dict(P=6, T=1), thorough=dict(P=12, T=1)), opts=dict(unwind=100)),
-            dict(name="VerifPageSelection", bounds=dict(quick=dict(P=1, T=2), thorough=dict(P=3, T=2)), opts=dict(unwind=100), nodiff=True),
+            dict(name="VerifPageSelection", bounds=dict(quick=dict(P=1, T=2), thorough=dict(P=2, T=2)), opts=dict(unwind=100), nodiff=True),
             dict(name="VerifPageSelectionEvenOdd", bounds=dict(quick=dict(P=4), thorough=dict(P=8)), opts=dict(unwind=100)),
             dict(name="VerifPageRemoval", bounds=dict(quick=dict(P=4), thorough=dict(P=8)), opts=dict(unwind=100)),
-            dict(name="VerifPageCollection", bounds=dict(quick=dict(P=4, T=1), thorough=dict(P=3, T=2)), opts=dict(unwind=100)),
+            dict(name="VerifPageCollection", bounds=dict(quick=dict(P=4, T=1), thorough=dict(P=2, T=2)), opts=dict(unwind=100)),
             dict(name="VerifPageSelectionSyntax", opts=dict(workers=1)),
         ],
     ),
@@ -320,7 +319,7 @@ PROPS = {
         pkg=MO,
         explanation="Node.Add / HandleLeaf / insertIntoLeaf / updateNameTreeLimits / Node.Remove / removeFromLeaf / removeFromKids / Node.Value executed symbolically on histories of I inserts then R removals with symbolic 1-byte keys on an empty tree (maxEntries = 3: the 4th distinct key splits the leaf); the solver enumerates every feasible ordering/equality pattern of the keys; after each operation: keys strictly ascending, node limits = min/max below, lookups = reference association list",
         outside="histories longer than the bounds, keys longer than one byte (ordering is lexicographic: one byte exercises every comparison outcome), trees read from documents, NameMap renaming of duplicate keys, writing and re-reading the tree",
-        harnesses=[dict(name="VerifNameTreeHistory", bounds=dict(quick=dict(I=5, R=1), thorough=dict(I=6, R=2)), opts=dict(unwind=200))],
+        harnesses=[dict(name="VerifNameTreeHistory", bounds=dict(quick=dict(I=5, R=1), thorough=dict(I=5, R=2)), opts=dict(unwind=200))],
     ),
     "C42": dict(
         pkg=SM,
